@@ -2,6 +2,7 @@
 import glob
 from tbxlint.facts import extract, AnalysisBroken, MODULES
 from tbxlint import harden, tmon, locks, q, exc, rd, reent
+from rules import C14_wiring
 
 NS = 'tbox::jsonrpc::'
 PROTOS = ['HeaderStreamProto', 'RawStreamProto', 'PacketProto']
@@ -692,6 +693,7 @@ def run(ctx):
     ctx.guard(r15, ctx, prog)
     ctx.guard(r16, ctx, prog)
     ctx.guard(r17, ctx, prog)
+    ctx.guard(C14_wiring.r18, ctx, prog)
     ctx.guard(harden.run_json_narrowing, ctx, prog, 'C14.R11', [prog.fn1(NS + 'Proto::onRecvJson')] + [prog.fn1(RPC + '::' + n) for n in ('onRecvRequest', 'onRecvRespond')],
               lambda g: g.file.startswith(MODULES + '/jsonrpc/') or g.file.startswith(MODULES + '/util/'), 'JSON-RPC receive path')
     ctx.guard(harden.run, ctx, prog, 'C14.R10', [prog.fn1(NS + p + '::onRecvData') for p in PROTOS] + [prog.fn1(NS + 'Proto::onRecvJson')] +
